@@ -332,6 +332,12 @@ func stepFaults(r *rng.R, method string, good []byte) []stepSpec {
 	add("envelope-type-call", whole(frameOf(envStrict(method, etCall, 1, vStruct()))), false, false)
 	add("envelope-type-oneway", whole(frameOf(envStrict(method, etOneWay, 1, vStruct()))), false, false)
 	add("exit-after-reading", nil, true, false)
+	if method == mGoodbye {
+		// a correct goodbye reply followed by more output than a pipe holds: the host never reads it, so
+		// the plugin sits in write() until the host closes its end of the pipe — which it must, or it
+		// waits for a process that cannot exit
+		add("ok-then-flood", [][]byte{good, make([]byte, 300<<10)}, true, true)
+	}
 	add("oversized-prefix-ffffffff", [][]byte{{0xff, 0xff, 0xff, 0xff}, good[4:]}, true, false)
 	add("oversized-prefix-plus1", [][]byte{be32(uint32(len(good) - 4 + 1)), good[4:]}, true, false)
 	add("oversized-prefix-just-below-fastpath", [][]byte{be32(10*1024*1024 - 1), good[4:]}, true, false)
